@@ -7,11 +7,23 @@
 (* the cluster and the redirections they cause while the table is stale.   *)
 (* C07: after the layout stops changing, routing converges within a        *)
 (* bounded number of refresh rounds triggered by the first redirection.    *)
+(*                                                                         *)
+(* The window this module makes explicit: a refresh is in flight (the node *)
+(* has already produced its CLUSTER NODES reply, `seen`), the layout       *)
+(* changes, and a request notices the stale table (MOVED / ASK, failed     *)
+(* connect to a dead master, CLUSTERDOWN, host add) and asks for a refresh *)
+(* BEFORE the stale reply is installed.  That request must survive the     *)
+(* installation of the older reply (TriggerKept).                          *)
+(*   DrainOnSuccess - a successful refresh empties the trigger channel     *)
+(*                    ("the fresh table satisfies whoever asked            *)
+(*                    meanwhile"): FALSE in the code; TRUE must violate    *)
+(*                    TriggerKept (lost wake-up)                           *)
 (***************************************************************************)
 EXTENDS Naturals, TLC
 
 CONSTANTS MaxLayout,      \* layouts are numbered 0..MaxLayout; a layout change increments the number
-          MaxFailures     \* refresh attempts that may fail
+          MaxFailures,    \* refresh attempts that may fail
+          DrainOnSuccess
 
 VARIABLES layout,         \* current layout of the cluster
           table,          \* layout the proxy's table reflects
@@ -20,24 +32,26 @@ VARIABLES layout,         \* current layout of the cluster
           seen,           \* layout returned by the CLUSTER NODES request in flight
           quit,
           rounds,         \* successful refresh rounds since the layout last changed
-          failures
+          failures,
+          noticed         \* a request has met the stale table since the layout last changed (and has asked for a refresh)
 
-vars == <<layout, table, trig, loop, seen, quit, rounds, failures>>
+vars == <<layout, table, trig, loop, seen, quit, rounds, failures, noticed>>
 
 Init ==
   /\ layout = 0 /\ table = 0 /\ trig = FALSE /\ loop = "wait" /\ seen = 0 /\ quit = FALSE
-  /\ rounds = 0 /\ failures = 0
+  /\ rounds = 0 /\ failures = 0 /\ noticed = FALSE
 
 (* environment: slots move (migration finished, failover) *)
 LayoutChange ==
-  /\ layout < MaxLayout /\ layout' = layout + 1 /\ rounds' = 0
+  /\ layout < MaxLayout /\ layout' = layout + 1 /\ rounds' = 0 /\ noticed' = FALSE
   /\ UNCHANGED <<table, trig, loop, seen, quit, failures>>
 
-(* a request routed by the stale table is redirected: handleRedirection -> triggerSlotsRefresh *)
-(* (non-blocking send: a token that is already there is kept)                                   *)
+(* a request routed by the stale table is redirected (handleRedirection), cannot connect to a master that *)
+(* has left (MakeRequestToHost) or is told CLUSTERDOWN: triggerSlotsRefresh (non-blocking send: a token   *)
+(* that is already there is kept)                                                                          *)
 Redirect ==
   /\ table # layout /\ ~quit
-  /\ trig' = TRUE
+  /\ trig' = TRUE /\ noticed' = TRUE
   /\ UNCHANGED <<layout, table, loop, seen, quit, rounds, failures>>
 
 (* loopRefreshSlots: select {quit | period | trigger}; the periodic timer is not modelled (it only adds triggers) *)
@@ -45,23 +59,24 @@ LoopTake ==
   /\ loop = "wait"
   /\ \/ quit /\ loop' = "exited" /\ UNCHANGED <<trig, seen>>
      \/ ~quit /\ trig /\ trig' = FALSE /\ loop' = "asking" /\ seen' = layout   \* the node answers with the layout it has now
-  /\ UNCHANGED <<layout, table, quit, rounds, failures>>
+  /\ UNCHANGED <<layout, table, quit, rounds, failures, noticed>>
 
 (* doSlotsRefresh returns: success -> the table becomes what the node reported; failure -> trigger again *)
 LoopRefreshed ==
   /\ loop = "asking"
-  /\ \/ /\ table' = seen /\ rounds' = rounds + 1 /\ UNCHANGED <<trig, failures>>
+  /\ \/ /\ table' = seen /\ rounds' = rounds + 1 /\ UNCHANGED failures
+        /\ trig' = IF DrainOnSuccess THEN FALSE ELSE trig
      \/ /\ failures < MaxFailures /\ failures' = failures + 1 /\ trig' = TRUE /\ UNCHANGED <<table, rounds>>
   /\ loop' = "sleep"
-  /\ UNCHANGED <<layout, seen, quit>>
+  /\ UNCHANGED <<layout, seen, quit, noticed>>
 
 (* the minimum interval elapses, or quit *)
 LoopWake ==
   /\ loop = "sleep"
   /\ loop' = IF quit THEN "exited" ELSE "wait"
-  /\ UNCHANGED <<layout, table, trig, seen, quit, rounds, failures>>
+  /\ UNCHANGED <<layout, table, trig, seen, quit, rounds, failures, noticed>>
 
-Quit == ~quit /\ quit' = TRUE /\ UNCHANGED <<layout, table, trig, loop, seen, rounds, failures>>
+Quit == ~quit /\ quit' = TRUE /\ UNCHANGED <<layout, table, trig, loop, seen, rounds, failures, noticed>>
 
 LoopNext == LoopTake \/ LoopRefreshed \/ LoopWake
 Next == LoopNext \/ LayoutChange \/ Redirect \/ Quit
@@ -78,4 +93,11 @@ BoundedRounds == (table # layout) => rounds <= 1
 NoLostTrigger == (table # layout /\ loop = "wait" /\ ~trig /\ ~quit) ~> (trig \/ table = layout \/ quit)
 \* quit ends the loop
 QuitEnds == quit ~> (loop = "exited")
+\* the refresh a request has asked for is never forgotten: while the table is stale and some request has noticed it under
+\* the current layout, a token is waiting or a refresh that has seen the current layout is in flight - so the rounds
+\* triggered by the first redirection end with the current layout, whatever older reply is installed meanwhile
+TriggerKept == (noticed /\ table # layout /\ ~quit) => (trig \/ (loop = "asking" /\ seen = layout))
+\* the window (must be reachable): a trigger raised while a refresh that has seen an older layout is in flight
+W_TriggerDuringStaleRefresh == loop = "asking" /\ seen # layout /\ trig /\ noticed
+NoWindow == ~W_TriggerDuringStaleRefresh
 =============================================================================
